@@ -60,6 +60,45 @@ Qed.
 Lemma np_opt {A} (o : option A) p : nopos_res (match o with Some x => Ok x | None => Panic p end).
 Proof. destruct o; exact I. Qed.
 
+Ltac np :=
+  first [ exact I | apply np_node_id_new | apply np_short_range | apply np_ns_range_checked
+        | apply np_ns_range_slice | apply np_ns_prefix_at | apply np_tb_finish | apply np_any_prefix
+        | apply np_ns_exists | apply np_find_prefix_idx | apply np_attr_expanded_name
+        | apply np_any_same_name | apply np_opt ].
+
+Section Shift.
+Variable ws text : bytes.
+Hypothesis Hvalid : valid_utf8_b text = true.
+Hypothesis Hws : forallb byte_is_space ws = true.
+Notation text2 := (ws ++ text).
+Notation k := (blen ws).
+Notation shs := (sh_s k).
+Notation shl := (sh_sl k).
+Notation shc := (sh_ctx k).
+Notation shd := (sh_doc k).
+Notation rsimE := (rsimE ws text).
+Notation sh_refres := (RangeShiftStream.sh_refres ws).
+Notation sh_chunk := (RangeShiftBuilder.sh_chunk ws).
+
+Ltac cproj :=
+  cbn [sh_ctx sh_doc c_opt c_ns_start_idx c_cur_attrs c_awaiting c_parent_prefixes c_entities c_after_text
+       c_parent_id c_tag_name c_entity_floor c_ld c_doc
+       set_doc set_ns_start_idx set_cur_attrs set_awaiting set_parent_prefixes set_entities
+       set_after_text set_parent_id set_tag_name set_entity_floor set_ld
+       d_nodes d_attrs d_ns_values d_ns_tree set_nodes set_attrs fst snd pmap] in *; unfold idf in *.
+
+Ltac bsync1 :=
+  rewrite ?len_N_map, ?nth_N_map, ?(slice_bytes_shift ws), ?slice_bytes_sl0, ?str_bytes_sh, ?storage_bytes_sh,
+          ?cow_bytes_sh, ?find_ns_sh, ?find_entity_sh, ?(slice_len_shift ws), ?slice_len_tn,
+          ?ns_name_bytes_sh,
+          ?(at_end_sh ws), ?(starts_with_sh ws), ?(curr_byte_opt_sh ws), ?(skip_spaces_sh ws),
+          ?s_rest_sh, ?s_pos_sh.
+Ltac bsync := cproj; repeat (progress bsync1).
+
+Ltac eat := apply (err_at_shE ws text Hvalid); pc.
+Ltac efr := apply (err_from_shE ws text Hvalid); [pc|first [reflexivity|cbn [sh_rng fst snd]; lia]].
+Ltac use L := solve [eapply L; try eassumption; try (intros; reflexivity)].
+
 Lemma upd_node_sh_atE nodes i f1 f2 :
   (forall x, nth_error nodes (N.to_nat i) = Some x -> f2 (sh_node k x) = sh_node k (f1 x)) ->
   rsimE (map (sh_node k)) (upd_node nodes i f1) (upd_node (map (sh_node k) nodes) i f2).
@@ -127,7 +166,7 @@ Proof.
   replace (map (fun x => cow_bytes text2 (sh_cow k x)) (c_after_text c)) with (map (cow_bytes text) (c_after_text c))
     by (apply map_ext; intros; symmetry; apply cow_bytes_sh).
   eapply rsimE_bind.
-  - apply upd_node_sh_atE. intros x Hx. rewrite (rev_last_nth _ _ _ Er) in Hx. injection Hx as <-.
+  - apply upd_node_sh_atE. intros x Hx. Show. rewrite (rev_last_nth _ _ _ Er) in Hx. injection Hx as <-.
     unfold sh_node, nd_set_kind. cbn. rewrite Ek. reflexivity.
   - intros nodes' _. reflexivity.
 Qed.
